@@ -706,6 +706,10 @@ func boundaryText(r *fw.Rng, kind codingKind) (string, string) {
 		if r.Chance(1, 3) {
 			// variation selector, zero-width joiner, combining accent: emoji sequences put them right behind wide characters
 			filler = []rune("a中\ufe0f\u200d\u0301文")
+		} else if r.Chance(1, 3) {
+			// 16-bit characters whose octets mean something in the octet codings: CR / LF / ESC / NUL as the low or the
+			// high octet (U+4E0D 不 is 4E 0D, U+0A05 is 0A 05, U+041B is 04 1B, U+1B05 is 1B 05)
+			filler = []rune{0x4e0d, 0x0a05, 0x041b, 0x200d, 0x0a85, 0x1b05, 0x000d, 0x000a, 0x0d0a, 0x0a0d, 0x1b1b, 0x0100, 'a'}
 		}
 	case kGB:
 		// two-octet characters from both ends of the lead-byte range (0x81.. and 0xFE: U+4E02 is 81 40, U+4DAE is FE 9F,
@@ -828,6 +832,11 @@ func boundaryText(r *fw.Rng, kind codingKind) (string, string) {
 		rs = append(rs, f)
 		pos += unitOf(f)
 	}
+	if (kind == kGSMPacked || kind == kGSMUnpacked) && len(rs) > 0 && r.Chance(1, 6) {
+		// the characters a packed message cannot end in without looking like padding, at the end of a message that
+		// fills its last part
+		rs[len(rs)-1] = rune(r.Pick('\r', '@', '\r'))
+	}
 	return string(rs), fmt.Sprintf("%s/target%s", kind, lenClass(target, single, per))
 }
 
@@ -864,7 +873,9 @@ func splitCase(c *fw.Case, judges ...func(*fw.Case, *splitObs)) {
 	case kLatin1:
 		reqs = []splitReq{{"SMPP", 3}, {"Build-SMPP", 3}}
 	case kUCS2:
-		reqs = []splitReq{{"CMPP", 8}, {"CMPP", 9}, {"SMPP", 8}, {"Build-CMPP", 8}, {"Build-SMPP", 8}}
+		reqs = []splitReq{{"CMPP", 8}, {"CMPP", 9}, {"SMPP", 8}, {"Build-CMPP", 8}, {"Build-SMPP", 8},
+			// ... and codings that cannot represent it: the UCS-2 fallback splits these
+			{"CMPP", 0}, {"SMPP", 0}, {"SMPP", 1}, {"SMPP", 3}, {"SMPP", 99}}
 	case kGB:
 		reqs = []splitReq{{"CMPP", 15}, {"Build-CMPP", 15}}
 	case kGSMUnpacked:
